@@ -204,7 +204,7 @@ def build(rng, C, kind, degs, nc, rdom, phi_kind, f_kind, phi_space=None):
     Q, R = np.meshgrid(np.array(pq.greville, dtype=float), np.array(pr.greville, dtype=float), indexing='ij')
     rm, rw = 0.5 * (rdom[0] + rdom[1]), (rdom[1] - rdom[0])
     omega = 0.0
-    if phi_kind == 'zero':
+    if phi_kind in ('zero', 'blob'):
         pv = np.zeros_like(Q)
     elif phi_kind == 'const':
         pv = np.full_like(Q, rng.uniform(-3, 3))
@@ -219,6 +219,14 @@ def build(rng, C, kind, degs, nc, rdom, phi_kind, f_kind, phi_space=None):
             pv = pv + rng.uniform(-1, 1) * rw * np.sin(m * Q + rng.uniform(0, TWOPI)) * (0.5 + ((R - rm) / rw) * rng.uniform(-1, 1)) * R
     phi = Spline2D(pq, pr)
     SplineInterpolator2D(pq, pr).compute_interpolant(pv, phi)
+    if phi_kind == 'blob':
+        # potential localised in theta: one un-wrapped row of coefficients in the middle of the period, so that the drift
+        # vanishes identically on the first and last theta rows of the grid while the other rows need several sweeps of the
+        # implicit iteration (a convergence test that looks at part of the grid only stops too early)
+        pd, nb = pq.degree, pq.nbasis
+        i0 = (pd + nb - 1) // 2
+        phi.coeffs[:] = 0.0
+        phi.coeffs[i0, :] = [rng.uniform(0.5, 1.5) * rw * rr for rr in np.linspace(rdom[0], rdom[1], phi.coeffs.shape[1])]
     it = SplineInterpolator2D(bq, br)
     if f_kind == 'random':
         fv = np.array([[rng.uniform(-1, 1) for _ in range(len(r))] for _ in range(len(q))])
@@ -291,6 +299,8 @@ def correspondence(chk, drv, C):
                 phi_space = (pd, (rng.randint(max(4, pd[0] + 1), 7), rng.randint(3, 6)))
         rdom = rng.choice([(float(C.rMin), float(C.rMax)), (1.0, 3.0), (0.5, 2.5), (2.0, 10.0)])
         phi_kind = rng.choice(['gen', 'gen', 'gen', 'gen', 'rot', 'rot', 'const', 'zero']) if it >= 6 else 'gen'
+        if not explicit and it % 12 in (2, 8) and it >= 6:
+            phi_kind = 'blob'
         f_kind = rng.choice(['random', 'smooth', 'feq'])
         B0 = rng.choice([1.0, 1.0, 2.0, 0.75])
         v = rng.uniform(-4, 4)
